@@ -184,7 +184,10 @@ def run(ctx):
             if len(samples) < 3 and at_bp and pt:
                 samples.append({"base_probs": bws, "draws": [u0] + us, "walk": pt})
         # honeyword session: exactly N words, all in the language
-        if lang is not None and lang and r % 4 == 0:
+        # (a ruleset whose mass is almost all Markov cannot deliver N words in reasonable time: termination is
+        # probabilistic there and not claimed, DESIGN C16)
+        nonmarkov_mass = sum(b["prob"] for b in g.base if "M" not in b["replacements"])
+        if lang is not None and lang and r % 4 == 0 and nonmarkov_mass >= 0.2:
             from lib_guesser.honeyword_session import HoneywordSession
             n = ctx.rng.randint(1, 9)
             if len(lang) <= 40 and ctx.rng.random() < 0.5:
